@@ -283,6 +283,13 @@ Section Generic.
     - intros t Ht. rewrite repeat_length. pose proof (max_power_ge ts t Ht). lia.
     - rewrite N, nth_repeat_same. reflexivity.
   Qed.
+  Lemma dense_length_max (ts : list (T * nat)) :
+    length (dense_coeffs ts) = S (max_power_of ts) /\
+    (forall t, In t ts -> (snd t <= max_power_of ts)%nat) /\
+    (ts <> [] -> exists t, In t ts /\ snd t = max_power_of ts).
+  Proof.
+    split; [apply dense_length|]. split; [intros t; apply max_power_ge|apply max_power_attained].
+  Qed.
 End Generic.
 
 (* ========================================================================== *)
@@ -739,11 +746,11 @@ Section Converse.
                            ck = (sgn neg (opt_dec_val co), @term_pow (UVar None e))).
     { destruct H as [[-> ->]|(ds & -> & Hw & ->)]; [exists None|exists (Some ds)]; auto. }
     destruct He as (e & Hwe & -> & ->).
-    exists (neg, UVar co e). cbn [snd wf_term is_var]. repeat split.
+    exists (neg, UVar co e). cbn [snd wf_term is_var]. split; [|split; [|split]].
     - unfold opt_dec_wf in Hco. rewrite Hco, Hwe. reflexivity.
     - unfold part, opt_dec_str. cbn [fst snd render_term]. rewrite <- !app_assoc. reflexivity.
     - unfold term_val. cbn [fst snd term_coef term_pow]. destruct co; reflexivity.
-    - discriminate.
+    - congruence.
   Qed.
 
   Lemma terms_inv var v parts terms :
@@ -814,8 +821,132 @@ Section Converse.
       apply m2pm_inj. rewrite render_norm by exact Hnm. rewrite orb_false_r.
       fold nz. rewrite <- J, <- Hparts.
       destruct neg; [|reflexivity].
-      exfalso. cbn [map] in Hparts. injection Hparts as Hp0 _.
-      unfold part in Hp0. cbn [fst snd sign_str app] in Hp0. injection Hp0 as <- _.
+      exfalso. assert (Hch : ch = c_minus).
+      { cbn [map] in Hparts. unfold part in Hparts. cbn [fst snd sign_str app] in Hparts. congruence. }
+      subst ch.
       cbn [join app] in J. exact (m2pm_head_not_minus t _ (eq_sym J)).
   Qed.
 End Converse.
+
+(* ========================================================================== *)
+(** * Part E — R instance: evaluation is the sum of c_k x^k, and equals the value of the text *)
+Section Reals.
+  Local Open Scope R_scope.
+
+  (* sum_k c_k x^(i+k), structurally *)
+  Fixpoint psum (x : R) (i : nat) (cs : list R) : R :=
+    match cs with
+    | [] => 0
+    | c :: cs' => c * x ^ i + psum x (S i) cs'
+    end.
+
+  Lemma fold_left_Rplus_acc (l : list R) : forall a, fold_left Rplus l a = a + fold_right Rplus 0 l.
+  Proof. induction l as [|y l IH]; intro a; cbn [fold_left fold_right]; [ring|rewrite IH; ring]. Qed.
+
+  Lemma eval_terms_psum x cs : forall i, fold_right Rplus 0 (eval_terms_from x i cs) = psum x i cs.
+  Proof.
+    induction cs as [|c cs IH]; intros i; cbn [eval_terms_from fold_right psum]; [reflexivity|].
+    rewrite IH, npowi_R_nat. reflexivity.
+  Qed.
+
+  Lemma eval_simple_psum (p : spoly R) x : eval_simple p x = psum x 0 (s_coefs p).
+  Proof.
+    unfold eval_simple. change (@nadd R RNum) with Rplus. rewrite fold_left_Rplus_acc, eval_terms_psum.
+    cbn [nsum0 RNum]. ring.
+  Qed.
+
+  Lemma fold_right_ext {A} (f g : A -> R -> R) a l :
+    (forall k acc, f k acc = g k acc) -> fold_right f a l = fold_right g a l.
+  Proof. intros H. induction l as [|y l IH]; cbn [fold_right]; [reflexivity|rewrite IH; apply H]. Qed.
+
+  Lemma sum_seq_shift (f : nat -> R) n : forall s,
+    fold_right (fun k acc => f k + acc) 0 (seq (S s) n) = fold_right (fun k acc => f (S k) + acc) 0 (seq s n).
+  Proof. induction n as [|n IH]; intros s; cbn [seq fold_right]; [reflexivity|rewrite IH; reflexivity]. Qed.
+
+  Lemma psum_seq x cs : forall i,
+    psum x i cs = fold_right (fun k acc => nth k cs 0 * x ^ (i + k) + acc) 0 (seq 0 (length cs)).
+  Proof.
+    induction cs as [|c cs IH]; intros i; cbn [psum length seq fold_right]; [reflexivity|].
+    rewrite (sum_seq_shift (fun k => nth k (c :: cs) 0 * x ^ (i + k)) (length cs) 0).
+    cbn [nth]. rewrite Nat.add_0_r, IH. f_equal.
+    apply fold_right_ext. intros k acc. replace (i + S k)%nat with (S i + k)%nat by lia. reflexivity.
+  Qed.
+
+  (* C01: the evaluator computes  sum_{k < n} c_k x^k  *)
+  Theorem eval_simple_sum (p : spoly R) (x : R) :
+    eval_simple p x = fold_right (fun k acc => nth k (s_coefs p) 0 * x ^ k + acc) 0 (seq 0 (length (s_coefs p))).
+  Proof. rewrite eval_simple_psum, psum_seq. apply fold_right_ext. intros; reflexivity. Qed.
+
+  Lemma psum_add_at x cs : forall p i c, (p < length cs)%nat ->
+    psum x i (add_at cs p c) = psum x i cs + c * x ^ (i + p).
+  Proof.
+    induction cs as [|y cs IH]; intros p i c Hp; cbn [length] in Hp; [lia|].
+    destruct p as [|p]; cbn [add_at psum].
+    - rewrite Nat.add_0_r. cbn [nadd RNum]. ring.
+    - rewrite IH by lia. replace (i + S p)%nat with (S i + p)%nat by lia. ring.
+  Qed.
+
+  Lemma psum_repeat0 x n : forall i, psum x i (repeat 0 n) = 0.
+  Proof. induction n as [|n IH]; intros i; cbn [repeat psum]; [reflexivity|rewrite IH; ring]. Qed.
+
+  Lemma psum_fold x (ts : list (R * nat)) : forall cs, (forall t, In t ts -> (snd t < length cs)%nat) ->
+    psum x 0 (fold_left (fun cs t => add_at cs (snd t) (fst t)) ts cs)
+    = psum x 0 cs + fold_right (fun t acc => fst t * x ^ snd t + acc) 0 ts.
+  Proof.
+    induction ts as [|t ts IH]; intros cs H; cbn [fold_left fold_right]; [ring|].
+    rewrite IH by (intros t' Ht'; rewrite add_at_length; apply H; right; exact Ht').
+    rewrite psum_add_at by (apply H; left; reflexivity). cbn [Nat.add]. ring.
+  Qed.
+
+  (* the dense vector built from a term list evaluates to the sum of the terms *)
+  Lemma eval_dense x (ts : list (R * nat)) v :
+    eval_simple {| s_coefs := dense_coeffs ts; s_var := v |} x
+    = fold_right (fun t acc => fst t * x ^ snd t + acc) 0 ts.
+  Proof.
+    rewrite eval_simple_psum. cbn [s_coefs]. unfold dense_coeffs.
+    rewrite psum_fold.
+    - change (@n0 R RNum) with 0. rewrite psum_repeat0. ring.
+    - intros t Ht. rewrite repeat_length. pose proof (max_power_ge ts t Ht). lia.
+  Qed.
+
+  (* the mathematical value of a source text at x:  sum of  sign * coefficient * x^power *)
+  Definition src_value (src : usrc) (x : R) : R :=
+    fold_right (fun (nt : bool * uterm) acc => (if fst nt then -1 else 1) * @term_coef R RNum (snd nt) * x ^ term_pow (snd nt) + acc) 0 src.
+
+  Lemma terms_value (src : usrc) x :
+    fold_right (fun t acc => fst t * x ^ snd t + acc) 0 (@terms_of R RNum src) = src_value src x.
+  Proof.
+    unfold src_value. induction src as [|[neg t] src IH]; cbn [terms_of map fold_right]; [reflexivity|].
+    fold (@terms_of R RNum src). rewrite IH. unfold term_val. cbn [fst snd sgn].
+    destruct neg; cbn [sgn nneg RNum]; ring.
+  Qed.
+
+  (* C01: a string of the documented language means what it says *)
+  Theorem simple_meaning (U : UClass) : USane U ->
+    forall (src : usrc) (v : N) (lead : bool) (s : str),
+    wf_src src = true -> (uses_var src = true -> u_alphabetic U v = true) ->
+    strip_ws s = render lead v src ->
+    exists p : spoly R, parse_simple U s = Ok p /\ forall x : R, eval_simple p x = src_value src x.
+  Proof.
+    intros HU src v lead s Hw Hv Hs. eexists. split.
+    - exact (simple_accept U HU src v lead s Hw Hv Hs).
+    - intros x. rewrite eval_dense. apply terms_value.
+  Qed.
+End Reals.
+
+(* ========================================================================== *)
+(** * Part F — the executable Unicode table is sane; examples *)
+
+Lemma uclass_tab_sane : USane uclass_tab.
+Proof.
+  constructor; try reflexivity.
+  intros c H. unfold is_ascii_digit in H. apply andb_true_iff in H. destruct H as [H1 H2].
+  apply N.leb_le in H1, H2.
+  assert (K : (c = 48 \/ c = 49 \/ c = 50 \/ c = 51 \/ c = 52 \/ c = 53 \/ c = 54 \/ c = 55 \/ c = 56 \/ c = 57)%N) by lia.
+  repeat (destruct K as [->|K]; [reflexivity|]). subst c. reflexivity.
+Qed.
+
+(* ASCII text -> code points (for examples) *)
+Definition str_of (s : String.string) : str := map Ascii.N_of_ascii (String.list_ascii_of_string s).
+Definition dI (a : String.string) : dec := {| d_int := str_of a; d_frac := None |}.
+Definition dF (a b : String.string) : dec := {| d_int := str_of a; d_frac := Some (str_of b) |}.
